@@ -1085,36 +1085,40 @@ def _end_model_construction(model):
         # If the the attributes to the class have been
         # collected in _tx_obj_attrs we need to do a proper
         # initialization at this point.
-        for obj in the_parser._user_class_inst:
-            try:
-                # Get the attributes which have been collected
-                # in metamodel.obj and remove them from this dict.
-                attrs = obj.__class__._tx_obj_attrs.pop(id(obj))
+        try:
+            for obj in the_parser._user_class_inst:
+                try:
+                    # Get the attributes which have been collected
+                    # in metamodel.obj and remove them from this dict.
+                    attrs = obj.__class__._tx_obj_attrs.pop(id(obj))
 
-                # First try to apply attributes directly. It might
-                # not be possible for some (e.g. __slots__ are used)
-                for name, value in attrs.items():
-                    with suppress(Exception):
-                        # Not possible to set the attribute
-                        setattr(obj, name, value)
+                    # First try to apply attributes directly. It might
+                    # not be possible for some (e.g. __slots__ are used)
+                    for name, value in attrs.items():
+                        with suppress(Exception):
+                            # Not possible to set the attribute
+                            setattr(obj, name, value)
 
-                # We shall only pass to __init__ attributes that are
-                # defined by the meta-model, and `parent` if applicable
-                attrs = {
-                    k: v
-                    for k, v in attrs.items()
-                    if k in obj.__class__._tx_attrs or k == "parent"
-                }
+                    # We shall only pass to __init__ attributes that are
+                    # defined by the meta-model, and `parent` if applicable
+                    attrs = {
+                        k: v
+                        for k, v in attrs.items()
+                        if k in obj.__class__._tx_attrs or k == "parent"
+                    }
 
-                # Call constructor for custom initialization
-                obj.__init__(**attrs)
+                    # Call constructor for custom initialization
+                    obj.__init__(**attrs)
 
-            except TypeError as e:
-                # Add class name information in case of wrong
-                # constructor parameters
-                e.args += (f"for class {obj.__class__.__name__}",)
-                the_parser.dprint(traceback.print_exc())
-                raise e
+                except TypeError as e:
+                    # Add class name information in case of wrong
+                    # constructor parameters
+                    e.args += (f"for class {obj.__class__.__name__}",)
+                    the_parser.dprint(traceback.print_exc())
+                    raise e
+        finally:
+            # Nothing must stay in the storage if a constructor fails
+            the_parser._discard_user_obj_attrs()
 
 
 def _remove_all_affected_models_in_construction(model):
